@@ -24,9 +24,12 @@ MANIFEST = dict(
     text="proof (partial). Machine-checked (Coq): for every binary operator of the arithmetic core applied to operands "
          "with closed dimension types, acceptance by the checker's rule implies that the run-time rule on the "
          "dimensions of the operand units does not fail with IncompatibleUnits and yields exactly the static type, "
-         "under ExpAgree (run-time exponent = statically evaluated exponent) (C01_binop_agree_partial, closed under the "
-         "global context); the static types come from the solver proved sound in C02_solver_sound. NOT proved: the "
-         "lifting to whole programs, generic calls, structs, lists (C01_sound_full : Prop). That part is decided on "
+         "under ExpAgree (run-time exponent = statically evaluated exponent) (C01_binop_agree_partial), and its lifting "
+         "by induction to whole expression trees of the arithmetic fragment over a closed monomorphic environment "
+         "(C01_expr_agree_partial: accepted => type is a variable-free dimension d and run-time unit dimension is "
+         "exactly d, never IncompatibleUnits); both closed under the global context; the static types come from the "
+         "solver proved sound in C02_solver_sound. NOT proved: let-programs, generic calls, conditionals, structs, "
+         "lists (C01_sound_full : Prop). That part is decided on "
          "every run by an oracle on the real implementation: generated accepted programs (arithmetic with prefixes, "
          "integer/fractional/composite constant exponents, derived units and dimensions, generic and inferred "
          "functions, where-clauses, conditionals, lists) are executed, no IncompatibleUnits-type run-time error may "
@@ -38,7 +41,7 @@ MANIFEST = dict(
     technique="Coq proof (per-operator static/run-time agreement) + model correspondence + run-time oracle through hooks",
 )
 
-THEOREMS = ["C01_binop_agree_partial"]
+THEOREMS = ["C01_binop_agree_partial", "C01_expr_agree_partial"]
 IMPORTS = ["Dim.Model", "Dim.Infer", "Dim.Exec", "Gen.PreludeDims"]
 
 # run-time error kinds that mean "went wrong dimensionally"
